@@ -540,6 +540,9 @@ func (z *ZeroOrOneExpr) String() string {
 
 // NullableVisit recursively determines whether an object is nullable.
 func (z *ZeroOrOneExpr) NullableVisit(rules map[string]*Rule) bool {
+	// the operand is visited for its side effect: InitialNames relies on the
+	// nullable flags of the nodes below
+	z.Expr.NullableVisit(rules)
 	return true
 }
 
@@ -577,6 +580,8 @@ func (z *ZeroOrMoreExpr) String() string {
 
 // NullableVisit recursively determines whether an object is nullable.
 func (z *ZeroOrMoreExpr) NullableVisit(rules map[string]*Rule) bool {
+	// see ZeroOrOneExpr.NullableVisit
+	z.Expr.NullableVisit(rules)
 	return true
 }
 
@@ -614,6 +619,8 @@ func (o *OneOrMoreExpr) String() string {
 
 // NullableVisit recursively determines whether an object is nullable.
 func (o *OneOrMoreExpr) NullableVisit(rules map[string]*Rule) bool {
+	// see ZeroOrOneExpr.NullableVisit
+	o.Expr.NullableVisit(rules)
 	return false
 }
 
